@@ -29,7 +29,13 @@ CFG = dict(
          "(4 layout-only) x 3 line-length settings; the same sources with noqa directives derived from what lint reports (line "
          "directives with/without codes, disable=all, disable/enable ranges, block comments, partial) x 11 selections; rule "
          "snippets and fixture files with max_line_length put on (a line a rewriting rule reports on) + d under selections that "
-         "mix the 13 layout rules with rewriting rules (layout + the snippet's own rule, core, all, layout + CV*, layout + AL/CP/ST/RF). "
+         "mix the 13 layout rules with rewriting rules (layout + the snippet's own rule, core, all, layout + CV*, layout + AL/CP/ST/RF); "
+         "rule snippets and fixture files with comments put at structural boundaries (behind the code of a line and on lines of "
+         "their own after closing brackets / commas / any line end); every layout option of the configuration file (indentation "
+         "section, line positions of commas and operators, the options of LT05 and LT09) at each non-default value, alone and in "
+         "random combinations, x 6 line-length limits, on texts as they are / ruffled / commented / unformatted (lines joined) that "
+         "are kept only when the options change what lint reports or what fix returns; in these two groups of classes fix is "
+         "repeated 3 more times through lint_string(fix = true) with the long-lived and with fresh linters (all texts equal). "
          "per run the hook's event stream is replayed through the Gallina loop model (group loop), the mask step through the mask "
          "model (group mask), and fix is repeated (determinism), compared with lint (clean => untouched, first batch comes from a "
          "reported violation), applied to its own output (idempotence, every selection containing the layout rules in the added "
@@ -38,6 +44,7 @@ CFG = dict(
     assumptions=["trees are identified by kind/raw/position structure when interned for the oracle tables",
                  "inputs on which parsing, a rule or apply_fixes panics are skipped and counted (C03)",
                  "byte-identity of clean files is compared after Linter::normalise_newlines (CRLF -> LF)",
-                 "results without a rule (the marker Rule::crawl leaves when a rule body panics, C03) are left out of the mask tables"],
+                 "results without a rule (the marker Rule::crawl leaves when a rule body panics, C03) are left out of the mask tables",
+                 "determinism is observed within one process (repeated runs, long-lived and fresh Linter objects), not across processes"],
     trusted_extra=["verif hook: core.rs verif_hook::FixEvent (Start/Batch/PassEnd/End)"],
 )
